@@ -14,6 +14,11 @@
 //!   mode 6  explicit script of transfer sizes (`explicit`), then whole requests
 //!   mode 7  explicit script with a Pending before every transfer
 //!
+//! Pending decisions are tracked per operation kind (read / seek / write / flush / shutdown): a
+//! Pending answer to one kind is followed by a Ready answer when that same kind is polled again.
+//! The sink is well behaved: flush with nothing written since the last completed flush, and
+//! shutdown after a completed shutdown, are Ready at once.
+//!
 //! After `limit` polls the adversary returns an error of kind `Other` and sets `tripped`; the
 //! harness reports that as `async-<fmt>-hang`.
 
@@ -37,12 +42,18 @@ pub struct Sched {
     state: u64,
     pub explicit: Vec<usize>,
     at: usize,
-    pending_left: u32,
-    armed: bool,
+    pending_left: [u32; 5],
+    armed: [bool; 5],
     pub polls: Arc<AtomicU64>,
     pub limit: u64,
     pub tripped: Arc<AtomicBool>,
 }
+
+pub const K_READ: usize = 0;
+pub const K_SEEK: usize = 1;
+pub const K_WRITE: usize = 2;
+pub const K_FLUSH: usize = 3;
+pub const K_SHUTDOWN: usize = 4;
 
 pub enum Step {
     Pending,
@@ -57,8 +68,8 @@ impl Sched {
             state: seed ^ 0xA5A5_5A5A_C3C3_3C3C,
             explicit: Vec::new(),
             at: 0,
-            pending_left: 0,
-            armed: false,
+            pending_left: [0; 5],
+            armed: [false; 5],
             polls: Arc::new(AtomicU64::new(0)),
             limit: 40_000_000,
             tripped: Arc::new(AtomicBool::new(false)),
@@ -90,7 +101,7 @@ impl Sched {
         let r = self.rnd();
         SIZES[(r % SIZES.len() as u64) as usize]
     }
-    pub fn next(&mut self) -> Step {
+    pub fn next(&mut self, kind: usize) -> Step {
         let n = self.polls.fetch_add(1, Ordering::Relaxed);
         if n >= self.limit {
             self.tripped.store(true, Ordering::SeqCst);
@@ -101,11 +112,11 @@ impl Sched {
             1 => Step::Xfer(1),
             2 => Step::Xfer(self.size()),
             3 | 4 | 7 => {
-                if !self.armed {
-                    self.armed = true;
+                if !self.armed[kind] {
+                    self.armed[kind] = true;
                     Step::Pending
                 } else {
-                    self.armed = false;
+                    self.armed[kind] = false;
                     match self.mode {
                         3 => Step::Xfer(usize::MAX),
                         4 => Step::Xfer(1),
@@ -114,15 +125,15 @@ impl Sched {
                 }
             }
             5 => {
-                if !self.armed {
-                    self.armed = true;
-                    self.pending_left = (self.rnd() % 4) as u32;
+                if !self.armed[kind] {
+                    self.armed[kind] = true;
+                    self.pending_left[kind] = (self.rnd() % 4) as u32;
                 }
-                if self.pending_left > 0 {
-                    self.pending_left -= 1;
+                if self.pending_left[kind] > 0 {
+                    self.pending_left[kind] -= 1;
                     Step::Pending
                 } else {
-                    self.armed = false;
+                    self.armed[kind] = false;
                     Step::Xfer(self.size())
                 }
             }
@@ -170,7 +181,7 @@ impl AdvReader {
 
 impl AsyncRead for AdvReader {
     fn poll_read(mut self: Pin<&mut Self>, cx: &mut Context<'_>, buf: &mut ReadBuf<'_>) -> Poll<io::Result<()>> {
-        match self.sched.next() {
+        match self.sched.next(K_READ) {
             Step::Tripped => Poll::Ready(Err(tripped_err())),
             Step::Pending => {
                 cx.waker().wake_by_ref();
@@ -211,7 +222,7 @@ impl AsyncSeek for AdvReader {
         if self.seek_to.is_none() {
             return Poll::Ready(Ok(self.pos));
         }
-        match self.sched.next() {
+        match self.sched.next(K_SEEK) {
             Step::Tripped => Poll::Ready(Err(tripped_err())),
             Step::Pending => {
                 cx.waker().wake_by_ref();
@@ -239,18 +250,20 @@ pub struct SinkLog {
 pub struct AdvWriter {
     pub log: Arc<Mutex<SinkLog>>,
     pub sched: Sched,
+    dirty: bool,
+    closed: bool,
 }
 
 impl AdvWriter {
     pub fn new(sched: Sched) -> (Self, Arc<Mutex<SinkLog>>) {
         let log = Arc::new(Mutex::new(SinkLog::default()));
-        (AdvWriter { log: log.clone(), sched }, log)
+        (AdvWriter { log: log.clone(), sched, dirty: false, closed: false }, log)
     }
 }
 
 impl AsyncWrite for AdvWriter {
     fn poll_write(mut self: Pin<&mut Self>, cx: &mut Context<'_>, buf: &[u8]) -> Poll<io::Result<usize>> {
-        match self.sched.next() {
+        match self.sched.next(K_WRITE) {
             Step::Tripped => Poll::Ready(Err(tripped_err())),
             Step::Pending => {
                 cx.waker().wake_by_ref();
@@ -263,13 +276,19 @@ impl AsyncWrite for AdvWriter {
                     log.writes_after_shutdown += 1;
                 }
                 log.bytes.extend_from_slice(&buf[..n]);
+                drop(log);
+                self.dirty = true;
                 Poll::Ready(Ok(n))
             }
         }
     }
 
     fn poll_flush(mut self: Pin<&mut Self>, cx: &mut Context<'_>) -> Poll<io::Result<()>> {
-        match self.sched.next() {
+        // a well-behaved sink: nothing written since the last completed flush => Ready at once
+        if !self.dirty {
+            return Poll::Ready(Ok(()));
+        }
+        match self.sched.next(K_FLUSH) {
             Step::Tripped => Poll::Ready(Err(tripped_err())),
             Step::Pending => {
                 cx.waker().wake_by_ref();
@@ -277,13 +296,18 @@ impl AsyncWrite for AdvWriter {
             }
             Step::Xfer(_) => {
                 self.log.lock().unwrap().flushes += 1;
+                self.dirty = false;
                 Poll::Ready(Ok(()))
             }
         }
     }
 
     fn poll_shutdown(mut self: Pin<&mut Self>, cx: &mut Context<'_>) -> Poll<io::Result<()>> {
-        match self.sched.next() {
+        // a completed shutdown stays completed
+        if self.closed {
+            return Poll::Ready(Ok(()));
+        }
+        match self.sched.next(K_SHUTDOWN) {
             Step::Tripped => Poll::Ready(Err(tripped_err())),
             Step::Pending => {
                 cx.waker().wake_by_ref();
@@ -291,6 +315,7 @@ impl AsyncWrite for AdvWriter {
             }
             Step::Xfer(_) => {
                 self.log.lock().unwrap().shutdowns += 1;
+                self.closed = true;
                 Poll::Ready(Ok(()))
             }
         }
